@@ -14,16 +14,26 @@ histories for a failing input and reports the violation either way).
 namespace SaoVerif
 
 theorem C10_decision_skeleton_as_modelled :
-    Generated.Skel.x_sao_keeper_msg_server_complete_go = Expected.Skel.x_sao_keeper_msg_server_complete_go ∧
-    Generated.Skel.x_sao_keeper_msg_server_cancel_go = Expected.Skel.x_sao_keeper_msg_server_cancel_go ∧
-    Generated.Skel.x_sao_keeper_msg_server_ready_go = Expected.Skel.x_sao_keeper_msg_server_ready_go ∧
-    Generated.Skel.x_sao_keeper_msg_server_store_go = Expected.Skel.x_sao_keeper_msg_server_store_go ∧
-    Generated.Skel.x_sao_keeper_msg_server_migrate_go = Expected.Skel.x_sao_keeper_msg_server_migrate_go ∧
-    Generated.Skel.x_node_keeper_msg_server_reset_go = Expected.Skel.x_node_keeper_msg_server_reset_go ∧
-    Generated.Skel.x_node_keeper_msg_server_claim_reward_go = Expected.Skel.x_node_keeper_msg_server_claim_reward_go ∧
-    Generated.Skel.x_node_keeper_msg_server_add_vstorage_go = Expected.Skel.x_node_keeper_msg_server_add_vstorage_go ∧
-    Generated.Skel.x_node_keeper_msg_server_remove_vstorage_go = Expected.Skel.x_node_keeper_msg_server_remove_vstorage_go ∧
-    Generated.Skel.x_did_keeper_did_management_go = Expected.Skel.x_did_keeper_did_management_go := by
+    [Generated.Skel.x_sao_keeper_msg_server_complete_go,
+     Generated.Skel.x_sao_keeper_msg_server_cancel_go,
+     Generated.Skel.x_sao_keeper_msg_server_ready_go,
+     Generated.Skel.x_sao_keeper_msg_server_store_go,
+     Generated.Skel.x_sao_keeper_msg_server_migrate_go,
+     Generated.Skel.x_node_keeper_msg_server_reset_go,
+     Generated.Skel.x_node_keeper_msg_server_claim_reward_go,
+     Generated.Skel.x_node_keeper_msg_server_add_vstorage_go,
+     Generated.Skel.x_node_keeper_msg_server_remove_vstorage_go,
+     Generated.Skel.x_did_keeper_did_management_go] =
+    [Expected.Skel.x_sao_keeper_msg_server_complete_go,
+     Expected.Skel.x_sao_keeper_msg_server_cancel_go,
+     Expected.Skel.x_sao_keeper_msg_server_ready_go,
+     Expected.Skel.x_sao_keeper_msg_server_store_go,
+     Expected.Skel.x_sao_keeper_msg_server_migrate_go,
+     Expected.Skel.x_node_keeper_msg_server_reset_go,
+     Expected.Skel.x_node_keeper_msg_server_claim_reward_go,
+     Expected.Skel.x_node_keeper_msg_server_add_vstorage_go,
+     Expected.Skel.x_node_keeper_msg_server_remove_vstorage_go,
+     Expected.Skel.x_did_keeper_did_management_go] := by
   decide +kernel
 
 end SaoVerif
